@@ -498,6 +498,40 @@ def enum_rules(fx, ck, comp, pre):
                 # no syntactic gate at all (a run-time test): nothing is rejected by form
                 if not sws:
                     rejected = []
+                # the form test may live in a predicate helper handed to an Option adapter: `!init.is_some_and(Self::enum_string_initializer)`.
+                # A predicate that is true for string forms only withholds the reverse mapping from string members only.
+                preds = []
+                for bi in body:
+                    t = f.blocks[bi]["t"]
+                    if t[0] != "call" or t[3][1] or t[3][0] not in ganc:
+                        continue
+                    d = t[1].get("d") or ""
+                    cands = []
+                    if d.endswith(("Option::<T>::is_some_and", "Option::<T>::is_none_or", "Option::<T>::map_or")):
+                        for a in t[2][1:]:
+                            fn = M.const_fn(a)
+                            if fn and fn in fx.fns:
+                                cands.append(fx.fns[fn])
+                            elif a[0] in ("c", "m"):
+                                ty = fx.tys(f.locals[a[1][0]])
+                                cands += [g for g in fx.fns.values() if g.closure and g.parent == f.path and ("{closure@%s:" % g.span.split("-")[0]) in ty]
+                    elif t[1].get("local") and d in fx.fns and fx.tys(fx.fns[d].sig[-1]) == "bool" and any("Expression" in fx.tys(x) for x in fx.fns[d].sig[:-1]):
+                        cands.append(fx.fns[d])
+                    preds += cands
+                if rejected and preds:
+                    true_forms = set()
+                    for g in preds:
+                        for sw in M.enum_switches(fx, g):
+                            if not (sw[1].endswith("ast::Expression") or sw[1].endswith("c04::Expression")):
+                                continue
+                            for v, tgt in list(sw[3].items()) + ([("*", sw[4])] if sw[4] is not None else []):
+                                reach = M.reach_bool_sensitive(fx, g, [tgt])
+                                if any(st[0] == "a" and st[1][0] == 0 and not st[1][1] and st[2][0] == "use" and st[2][1][0] == "k" and M.const_int(st[2][1]) == 1
+                                       for b in reach for st in g.blocks[b]["s"]):
+                                    true_forms.add(v)
+                    if true_forms and true_forms <= set(STRING_FORMS):
+                        rejected = []
+                        numeric = set(variants) - set(STRING_FORMS)
                 ok = not rejected
                 ck.instance("E2.reverse-gate", "%s: reverse mapping for forms %s" % (f.path, sorted(numeric) or "decided at run time"),
                             F.short_span(rev[0][1][3]), ok=ok)
